@@ -160,7 +160,8 @@ class Arr:
 def oracle(case):
     """required observation for a case, or None when the property requires nothing (precondition false)"""
     t = case.split()
-    k, a = t[0], [int(x) for x in t[1:]]
+    k = t[0]
+    a = [int(x) for x in t[1:]] if k != "VA" else []
     if k == "F2":
         dx, dy = a
         return "T %d F %s R %s" % (dx * dy, jn(x + dx * y for y in range(dy) for x in range(dx)),
@@ -210,20 +211,20 @@ def oracle(case):
     if k == "SH":
         d, s = tuple(a[:3]), tuple(a[3:6])
         base = Arr(d, lambda i: 1 + i)
-        ws = box(-1, d[0] + 1, -1, d[1] + 1, -1, d[2] + 1)
+        ws = box(-2, d[0] + 2, -2, d[1] + 2, -2, d[2] + 2)
         g = lambda w: base.get(tuple(trem(w[q] + d[q] + s[q], d[q]) for q in range(3)))
         return "S %s N %d G %s GM %s" % (d3(d), base.num(), jn(g(w) for w in ws if inside(d, w)), jn(g(w) for w in ws if not inside(d, w)))
     if k == "SB":
         d, lo, hi = tuple(a[:3]), tuple(a[3:6]), tuple(a[6:9])
         base = Arr(d, lambda i: 1 + i)
         sz = tuple(hi[q] - lo[q] for q in range(3))
-        ws = box(-1, sz[0] + 1, -1, sz[1] + 1, -1, sz[2] + 1)
+        ws = box(-2, sz[0] + 2, -2, sz[1] + 2, -2, sz[2] + 2)
         g = lambda w: base.get(tuple(w[q] + lo[q] for q in range(3)))
         return "S %s N %d G %s GM %s" % (d3(sz), sz[0] * sz[1] * sz[2], jn(g(w) for w in ws if inside(sz, w)), jn(g(w) for w in ws if not inside(sz, w)))
     if k == "AC":
         d, seed = tuple(a[:3]), a[3]
         base = Arr(d, lambda i: value(seed, i) * 37 - 1000)
-        ws = box(0, d[0], 0, d[1], 0, d[2])
+        ws = box(-2, d[0] + 2, -2, d[1] + 2, -2, d[2] + 2)
         return "S %s N %d GF %s GB %s" % (d3(d), base.num(), jn(base.get(w) for w in ws), jn(base.get(w) % 256 for w in ws))
     if k == "MS":
         dx, dy, dzs, n, seed = a
@@ -235,6 +236,31 @@ def oracle(case):
         base = Arr(d, lambda i: value(seed, i))
         vs = [base.get(c) for c in box(b[0], e[0], b[1], e[1], b[2], e[2])]
         return "%d %d" % (min(vs), max(vs)) if vs else "empty"
+    if k == "VA":
+        kind = t[1]
+        a = [int(x) for x in t[2:]]
+        d, seed, p, b, e = tuple(a[:3]), a[3], a[4:10], tuple(a[10:13]), tuple(a[13:16])
+        cell = lambda sd: (lambda i: value(sd, i) * 37 - 100)
+        base = Arr(d, cell(seed))
+        if kind == "AB":
+            g = lambda w: base.get(w) % 256
+        elif kind == "AS":
+            g = lambda w: (base.get(w) + 128) % 256 - 128
+        elif kind == "AI":
+            g = base.get
+        elif kind == "AF":
+            g = lambda w: (abs(base.get(w)) // 4) * (1 if base.get(w) >= 0 else -1)      # (int)(v / 4.0f): truncation
+        elif kind == "SH":
+            g = lambda w: base.get(tuple(trem(w[q] + d[q] + p[q], d[q]) for q in range(3)))
+        elif kind == "SB":
+            g = lambda w: base.get(tuple(w[q] + p[q] for q in range(3)))
+        elif kind == "MS":
+            sl = [Arr(d, cell(seed + s2)) for s2 in range(p[0])]
+            g = lambda w: sl[clamp(w[2], 0, p[0] - 1)].get((w[0], w[1], 0))
+        else:
+            return None          # repeater: not in the property text; self-consistency + model only
+        vs = [g(w) for w in box(b[0], e[0], b[1], e[1], b[2], e[2])]
+        return ("R %d %d" % (min(vs), max(vs)) if vs else "R empty") + " G " + jn(vs)
     if k == "BG":
         dx, dy, dz, x, y, z, v, idx = a
         return "N %d X %d G %d RAW %d G0 %d" % (dx * dy * dz, x + dx * (y + dy * z), v, v, v if (x, y, z) == (0, 0, 0) else 0)
@@ -242,9 +268,9 @@ def oracle(case):
 
 
 def required_part(obs):
-    """the adaptors document "'where' MUST be a valid cell location": what they return in the margin (GM) is compared with the
-    model (correspondence) but is not demanded by the property"""
-    return obs.split(" GM ")[0]
+    """everything is demanded: the adaptors "return exactly the value of the underlying cell their definition names" also for
+    coordinates outside their own extent (the G list is inside size(), the GM list the margin [-2, size+2) around it)"""
+    return obs
 
 
 def first_diff(obs, req):
@@ -270,7 +296,7 @@ def first_diff(obs, req):
 FIELD_NAMES = {"T": "total_indices()", "P": "longProduct(dims)", "F": "flatten(coords)", "R": "reshape(i)", "L": "longIndex(idx, dims)",
                "C": "coordsOf(i, dims)", "G": "get(where)", "N": "numElements()", "X": "indexOf(pos)", "S": "size()",
                "GF": "Array3DAccessor<int,float>::get", "GB": "Array3DAccessor<int,unsigned char>::get", "RAW": "value[expected linear index]",
-               "G0": "get(-3,-3,-3)", "GM": "get(where outside size())", "post": "it++ traversal", "pre": "++it traversal", "rf": "range-for traversal", "ret": "++it result",
+               "G0": "get(-3,-3,-3)", "R": "getValueRange(begin, end) through the adaptor", "GM": "get(where outside size())", "post": "it++ traversal", "pre": "++it traversal", "rf": "range-for traversal", "ret": "++it result",
                "FE": "for_each(lower, upper) visit list", "VR": "getValueRange(begin, end)"}
 
 
@@ -403,6 +429,26 @@ def gen_cases(ctx, extra):
             add(B, "AC %d %d %d %d" % (d + (seed,)))
     for dx, dy, dzs, n in itertools.product(range(1, 4), range(1, 4), (1, 2), range(1, 5)):
         add(B, "MS %d %d %d %d %d" % (dx, dy, dzs, n, r.randint(0, 50)))
+    # ---- getValueRange THROUGH every adaptor (and the adaptor's own get over the same region): all regions inside the
+    #      adaptor's extent + random ones reaching outside it
+    def va(kind, d, seed, p, size, nrand):
+        axes = [[(lo, hi) for lo in range(size[q] + 1) for hi in range(size[q] + 1)] for q in range(3)]
+        for bx, by, bz in itertools.product(*axes):
+            add(B, "VA %s %d %d %d %d %s %d %d %d %d %d %d" % ((kind,) + d + (seed, " ".join(str(x) for x in p), bx[0], by[0], bz[0], bx[1], by[1], bz[1])))
+        for _ in range(nrand):
+            b = tuple(r.randint(-2, size[q]) for q in range(3))
+            e = tuple(b[q] + r.randint(0, 3) for q in range(3))
+            add(B, "VA %s %d %d %d %d %s %d %d %d %d %d %d" % ((kind,) + d + (seed, " ".join(str(x) for x in p)) + b + e))
+    nr = ctx.pick(120, 1500)
+    for kind in ("AB", "AS", "AF", "AI"):
+        va(kind, (3, 2, 2), 3, [0] * 6, (3, 2, 2), nr)
+        va(kind, (2, 2, 3), 11, [0] * 6, (2, 2, 3), nr)
+    for sh in ((1, -1, 4), (-2, 0, 1)):
+        va("SH", (3, 2, 2), 3, list(sh) + [0, 0, 0], (3, 2, 2), nr)
+    for lo, hi in (((1, 0, 0), (3, 2, 1)), ((0, 1, 0), (2, 2, 2)), ((1, 1, 1), (3, 3, 3)), ((0, 0, 0), (3, 3, 3))):
+        va("SB", (3, 3, 3), 5, list(lo) + list(hi), tuple(hi[q] - lo[q] for q in range(3)), nr)
+    va("MS", (2, 2, 1), 7, [3, 0, 0, 0, 0, 0], (2, 2, 3), nr)
+    va("RP", (3, 2, 2), 3, [4, 3, 2, 0, 0, 0], (4, 3, 2), nr)
     # ---- getValueRange: all regions of 4x4x4 (bounds in [0,4]^3, incl. empty and inverted) + random others
     for seed in ctx.pick((3,), (3, 4, 5)):
         for b in itertools.product(range(5), repeat=3):
@@ -418,6 +464,9 @@ def gen_cases(ctx, extra):
 
 def nontrivial(case):
     t = case.split()
+    if t[0] == "VA":
+        a = [int(x) for x in t[2:]]
+        return all(a[10 + q] < a[13 + q] for q in range(3))
     k, a = t[0], [int(x) for x in t[1:]]
     if k in ("F2", "IT2"):
         return a[0] != a[1] and a[0] * a[1] > 1
@@ -442,7 +491,7 @@ def nontrivial(case):
 
 def size_key(case):
     t = case.split()
-    a = [abs(int(x)) for x in t[1:]]
+    a = [abs(int(x)) for x in t[1:] if x.lstrip("-").isdigit()]
     return (len(case), sum(a))
 
 
@@ -528,6 +577,13 @@ def run(ctx):
             req = oracle(c)
             kind = c.split()[0]
             ok = True
+            if kind == "VA" and " G " in h:
+                rr, gg = h.split(" G ", 1)
+                vs = [int(x) for x in gg.split(",")] if gg != "-" else []
+                want = ("R %d %d" % (min(vs), max(vs))) if vs else "R empty"
+                if rr != want:
+                    ok = False
+                    viol.setdefault("VA-" + c.split()[1], []).append((c, h, want + " G " + gg))
             if req is None:
                 stats["oracle_skipped_precondition_false"] += 1
             else:
@@ -536,6 +592,8 @@ def run(ctx):
                     ok = False
                     if kind == "VR" and req == "empty":
                         finding_hits.append((c, h))
+                    elif kind == "VA":
+                        viol.setdefault("VA-" + c.split()[1], []).append((c, h, req))
                     else:
                         viol.setdefault(kind, []).append((c, h, req))
             if ml is not None:
@@ -589,7 +647,10 @@ def run(ctx):
     ctx.rule = ("exhaustive: every coordinate and index of all extents 1..5^3 (flatten/reshape/longIndex/coordsOf/longProduct) and 1..7^2; "
                 "for_each over all 15625 (lower,upper) pairs in [0,4]^3 (+ random offset/negative ones); iterator traversal (it++, ++it, range-for) "
                 "for all extents 0..5^3 and 0..7^2; ActualArray3D set/get/clamp/indexOf/numElements for all extents 1..5^3; shifts in [-5,5]^3; "
-                "all clip boxes of 4x4x4; accessor; multi-slice with 1-4 slices; getValueRange over all regions of 4x4x4; random/boundary "
+                "all clip boxes of 4x4x4; accessor; multi-slice with 1-4 slices; every adaptor also at coordinates in [-2, size+2) per axis (demanded: the "
+                "cell its definition names, with the underlying array's clamping); getValueRange over all regions of 4x4x4 and THROUGH every adaptor "
+                "(accessors int->unsigned char / int->char / float->int / int->float over cells in [-507, 307]; shifted; sub-box; multi-slice; repeater) over "
+                "all regions of their extent + regions reaching outside, oracle = min/max of the adaptor's own get; random/boundary "
                 "extents with products beyond 2^31, 2^32 and up to 2^64 at single points (nothing allocated) and one set/get in >2^32-cell "
                 "byte arrays in lazily mapped memory. non-trivial = implementation agrees with the oracle AND the case has a non-cubic extent "
                 "with more than one cell / product >= 2^31 / a non-empty region / a shift not a multiple of the extent / a strict non-empty "
